@@ -42,7 +42,8 @@ def run_cases(sc, pid, verdict, cases, seed, label, stats, sig_extra=None, env=N
         sig = {"kind": ev["e"], "mode": cfg.get("mode"), "key_exists": cfg.get("key_exists"), "parallel_gt1": cfg.get("parallel", 1) > 1,
                "chunk": bool(ent and ent.get("chunk")), "target_replace": cfg.get("target_replace", False),
                "had_pre": ev.get("had_pre"), "present": ev.get("present"), "match": ev.get("match"), "ttl": ev.get("ttl"),
-               "cmd": ev.get("cmd"), "abort": ev.get("abort"), "err": ev.get("err"), "label": label}
+               "cmd": ev.get("cmd"), "abort": ev.get("abort"), "err": ev.get("err"), "label": label,
+               "chunk_scenario": bool(c and any(e.get("chunk") for e in c["entries"]))}
         if sig_extra:
             sig.update(sig_extra(ev, c, ent))
         if sig_fn:
